@@ -468,7 +468,8 @@ Inductive case :=
 | KProject (c a : option ptQ) (remove_centre : bool) (s : gspec) (u : @ufun QOps) (seen : list ptQ) (out : res (@output QOps))
 | KRelocate (rmin : option Q) (r : radfun) (s : gspec) (u : @ufun QOps) (seen : list ptQ) (out : res (@output QOps))
 | KStack (d : maker) (rmin : option Q) (c a : ptQ) (nested : bool) (s : gspec) (u : @ufun QOps)
-         (seen : list ptQ) (out : res (@output QOps)).
+         (seen : list ptQ) (out : res (@output QOps))
+| KShape (m : @mask2 QOps) (c : ptQ) (n : Z).      (* Grid2D.grid_2d_radial_projected_shape_slim_from(centre) *)
 
 (* the function's argument as the model computes it; [] when the function is not reached *)
 Definition seen_of (x : res (@grid QOps)) : list ptQ := match x with Ok g => coords_of g | Raise _ => [] end.
@@ -488,6 +489,7 @@ Definition agree (k : case) : bool :=
   | KStack d rmin c a nested s u seen out =>
       psnear (seen_of (@stack_arg QOps rmin c a nested (build s))) seen
       && rout_near (@stack QOps d rmin c a nested (uapply u) (build s)) out
+  | KShape m c n => Z.eqb (@radial_shape QOps m c) n
   end.
 
 (* ---------------------------------------------------------------------- specification verdict on the implementation's
@@ -621,6 +623,7 @@ Definition spec_ok (k : case) : bool :=
           && forallb (fun ps => relocated_ok rm nrm2 (fst ps) (snd ps)) (combine cs seen)
           && mirror d s (uapply u (ucoords seen)) out
       end
+  | KShape m c n => Z.eqb (Z.of_nat (@spec_count QOps m c)) n
   end.
 
 Definition check (k : case) : nat := verdict (agree k) (spec_ok k).
